@@ -106,7 +106,7 @@ FACTS = [
     ("pending", "c", "compression_pending", "return" + D + "stream.next_in!=NULL||comp->next.pending(intf);"),
     ("init_guard", "c", "compression_init", "if(!conn->compression.allowed||!conn->compression.supported)return-1;"),
     ("init_layers", "c", "compression_init", "comp->next=conn->intf;conn->intf=compression_intf;conn->intf.conn=conn;"),
-    ("ev_flush_each_iteration", "e", "xmpp_run_once", "trigger_sm_callback(conn);}intf->flush(intf);if(conn->error){"),
+    ("ev_flush_each_iteration", "e", "xmpp_run_once", "}intf->flush(intf);if(conn->error){"),
     ("ev_counts_pending", "e", "xmpp_run_once", "if(conn->state==XMPP_STATE_CONNECTED)tls_read_bytes+=intf->pending(intf);"),
     ("ev_early_return", "e", "xmpp_run_once", "if(ret==0&&tls_read_bytes==0)return;"),
     ("ev_read_when_pending", "e", "xmpp_run_once",
